@@ -7,6 +7,7 @@ import AskarModel.Model.Ffi
 import AskarModel.Lemmas.Ffi
 import AskarModel.Model.FfiEntry
 import AskarModel.Lemmas.FfiEntry
+import AskarModel.Generated.Tables
 
 namespace Askar.Ffi
 open Askar.Store (Err)
@@ -593,5 +594,88 @@ theorem log_record_delivery (maxLevel : Nat) (disabled : Bool) (cb : Option (Nat
 
 example : setCustomLogger .none 5 = (.success, .custom) ∧ setCustomLogger .none 6 = (.input, .none) ∧ setDefaultLogger .none = (.success, .default) := by decide
 example : recordDelivered 5 false (some fun l => decide (l ≤ 4)) 5 = false ∧ recordDelivered 5 false none 5 = true := by decide
+
+
+/-! ### the error-code tables are the source's (regenerated from src/ffi/error.rs on every run) -/
+
+/-- every `ErrorCode` of the model has the name and the discriminant the CURRENT source declares, in declaration order -/
+theorem ffi_error_codes_match_source :
+    [Code.success, .backend, .busy, .duplicate, .encryption, .input, .notFound, .unexpected, .unsupported, .custom].map
+      (fun c => (c.name, c.num)) = Askar.Generated.Tables.ffiErrorCodes := by decide
+
+/-- `Code.ofErr` is the source's `impl From<ErrorKind> for ErrorCode`, arm for arm -/
+theorem ffi_code_of_kind_matches_source :
+    [Err.backend, .busy, .custom, .duplicate, .encryption, .input, .notFound, .unexpected, .unsupported].map
+      (fun e => (e.name, (Code.ofErr e).name)) = Askar.Generated.Tables.ffiCodeOfKind := by decide
+
+/-! ### Round 2: a backend that fails inside an accepted call; tasks that never complete; closes without a callback -/
+
+/-- An accepted call (callback supplied, arguments decoded) whose task runs to the end delivers exactly
+    its result — whatever it is: a value or ANY error kind (Backend from a failing statement, Busy, …) —
+    through the callback, once, and the entry point itself has returned `Success`.  For every entry point
+    of the table. -/
+theorem accepted_call_result_delivered_once {ρ : Type} (e : AsyncEntry) (parse : String → Except Err Unit)
+    (strs : List CStr) (method : CStr) (r : Except Err ρ) (hd : e.decode parse strs method = .ok ()) :
+    e.run true parse strs method (.completed r) = (.success, [⟨r⟩]) := by
+  simp [AsyncEntry.run, runEntry, hd, taskFires, EnsureCb.resolve, EnsureCb.drop]
+
+/-- The drop guard: when the task of an accepted call never completes — the runtime was shut down before
+    the spawn (`askar_terminate` earlier), the task is cancelled at shutdown, or it unwinds — the callback
+    still fires, exactly once, with `Unexpected`. -/
+theorem dropped_task_fires_unexpected_once {ρ : Type} (e : AsyncEntry) (parse : String → Except Err Unit)
+    (strs : List CStr) (method : CStr) (hd : e.decode parse strs method = .ok ()) :
+    e.run (ρ := ρ) true parse strs method .notSpawned = (.success, [⟨.error .unexpected⟩]) ∧
+    e.run (ρ := ρ) true parse strs method .cancelled = (.success, [⟨.error .unexpected⟩]) ∧
+    e.run (ρ := ρ) true parse strs method .panicked = (.success, [⟨.error .unexpected⟩]) := by
+  refine ⟨?_, ?_, ?_⟩ <;> simp [AsyncEntry.run, runEntry, hd, taskFires, EnsureCb.drop]
+
+/-- What a callback delivered as an error is what `askar_get_current_error` reports next (the error arm of
+    every callback closure goes through `set_last_error`); a delivered value leaves the slot alone. -/
+theorem delivered_error_is_retrievable {ρ : Type} (x : Err) (v : ρ) (s : ErrSlot) :
+    (takeCurrentError (deliver [(⟨.error x⟩ : Fire ρ)] s)).1 = (Code.ofErr x).num ∧ deliver [(⟨.ok v⟩ : Fire ρ)] s = s := by
+  constructor <;> rfl
+
+/-- A store call whose first statement is hit by a fault on the file (an ABORT trigger on the table it
+    writes, a table that is not there) fails with Backend; a call no fault hits keeps its own result —
+    e.g. a row-level trigger does not fire for a DELETE that matches no row. -/
+theorem faulted_call_is_backend {ρ : Type} (faults : List Fault) (call : StoreCall) (own : Except Err ρ) :
+    (faults.any (·.hits call) = true → faultedResult faults call own = .error .backend) ∧
+    (faults.any (·.hits call) = false → faultedResult faults call own = own) := by
+  constructor <;> intro h <;> simp [faultedResult, h]
+
+/-- Together: through the C API such a failure arrives as `Success` from the entry point, ONE callback
+    carrying Backend, and Backend (code 1) in the error slot. -/
+theorem faulted_call_backend_through_callback_once {ρ : Type} (e : AsyncEntry) (parse : String → Except Err Unit)
+    (strs : List CStr) (method : CStr) (faults : List Fault) (call : StoreCall) (own : Except Err ρ) (s : ErrSlot)
+    (hd : e.decode parse strs method = .ok ()) (hf : faults.any (·.hits call) = true) :
+    e.run true parse strs method (.completed (faultedResult faults call own)) = (.success, [⟨.error .backend⟩]) ∧
+    (takeCurrentError (deliver (e.run true parse strs method (.completed (faultedResult faults call own))).2 s)).1 = Code.backend.num := by
+  rw [accepted_call_result_delivered_once e parse strs method _ hd, (faulted_call_is_backend faults call own).1 hf]
+  exact ⟨rfl, rfl⟩
+
+/-- `askar_store_close` / `askar_session_close` take an optional callback.  Without one nothing is ever
+    invoked, whatever the arguments and whatever becomes of the task (its failure — invalid handle, Busy —
+    is only logged); with one it fires exactly once for every fate. -/
+theorem close_without_callback_never_fires {ρ : Type} (early : Option Code) (decode : Except Err Unit) (fate : TaskFate ρ) :
+    (runEntry .optional false early decode fate).2 = [] := by
+  cases early <;> cases decode <;> simp [runEntry]
+
+theorem close_with_callback_fires_once {ρ : Type} (fate : TaskFate ρ) :
+    (runEntry .optional true none (.ok ()) fate).1 = .success ∧ (runEntry .optional true none (.ok ()) fate).2.length = 1 := by
+  cases fate <;> simp [runEntry, taskFires, EnsureCb.resolve, EnsureCb.drop]
+
+/-- the NULL-argument arms named by the audit: profile name of remove_profile / set_default_profile, key
+    name of update_key / remove_key, each string of the migration -/
+example : (AsyncEntry.removeProfile.run (ρ := Unit) true (fun _ => .ok ()) [.null] .null (.completed (.ok ()))) = (.input, []) := rfl
+example : (AsyncEntry.updateKey.run (ρ := Unit) true (fun _ => .ok ()) [.null] .null (.completed (.ok ()))) = (.input, []) := rfl
+example : (AsyncEntry.removeKey.run (ρ := Unit) true (fun _ => .ok ()) [.null] .null .cancelled) = (.input, []) := rfl
+example : (AsyncEntry.listProfiles.run (ρ := Unit) false (fun _ => .ok ()) [] .null (.completed (.ok ()))) = (.input, []) := rfl
+example : (AsyncEntry.migrateIndySdk.run (ρ := Unit) true (fun _ => .ok ()) [.null, .utf8 "n", .utf8 "k", .utf8 "RAW"] .null .notSpawned) = (.input, []) := rfl
+/-- the fault table is not trivial: hits and misses -/
+example : Fault.profilesDelete.hits (.removeProfile true) = true ∧ Fault.profilesDelete.hits (.removeProfile false) = false ∧
+    Fault.itemsDelete.hits (.removeAll 0) = false ∧ Fault.itemsDelete.hits (.removeAll 3) = true ∧ Fault.itemsInsert.hits .rekey = false ∧
+    Fault.profilesHidden.hits .listProfiles = true := by decide
+example : (AsyncEntry.setDefaultProfile.run (ρ := Unit) true (fun _ => .ok ()) [.utf8 "p2"] .null
+    (.completed (faultedResult [.configWrite] .setDefaultProfile (.ok ())))).2.length = 1 := by decide
 
 end Askar.Ffi
